@@ -344,6 +344,7 @@ pub fn run_sdk(case: &Case) -> RunOutput {
                 eprintln!("[sdk] stopped: {stop:?}; busiest actors in the second half: {:?}", sim.inner.actor_steps.borrow());
             }
             crate::rt::SimStop::Escaped(what) => out.harness_error = Some(format!("simulation escaped: {what}")),
+            crate::rt::SimStop::MainPanicked(message) => crate::scen::main_panicked("C20", &message, &mut out),
             other => out.violations.push(Violation { prop: "C20", oracle: "bounded_liveness", tag: "run_never_ends".into(), detail: format!("{other:?}"), op_index: 0 }),
         },
     }
